@@ -23,6 +23,11 @@ CHECKS = {
    text="Every expression of the bounded families (disjunctions of width 2-3 with every un-nested mark pattern over 11 leaves, unified with leaves and with other disjunctions, disjunctions of conjunctions, nested unmarked disjunctions carrying defaults) is evaluated by the real evaluator; acceptance of 14 probe values and the resolved default (unique / fallback / ambiguity must be incomplete) are compared with a model of rules U0-U2, D0-D2, M0-M1 plus the spec's elimination sentence.",
    note="Trusts src/model/disj.go. Nested marks (M2/M3) excluded as the property states. One known finding (collapsed marked disjunction loses its default) listed in known_findings.jsonl.",
    ref="DESIGN.md §3 C04"),
+ "C05": dict(engine="enum",
+   technique="bounded-exhaustive enumeration of schemas x data structs on the real evaluator against an independent struct-membership reference model",
+   text="Every schema of the closedness fragment (literals of <=3 members from a 23-30 member alphabet of regular/optional/required fields, patterns, ..., embeddings of literals / close() / definitions; reached open, via close(), via #S and via #T.f; conjunctions of 2-3) is unified with every data struct of a bounded set (incl. hidden/definition fields) by the real evaluator; the accept/reject verdict and the resulting field set are compared with the model for every pair.",
+   note="Trusts src/model/structs.go. One fragment is unclaimed (struct-valued field next to an embedded definition: spec example and implementation disagree, property silent).",
+   ref="DESIGN.md §3 C05"),
  "C09": dict(engine="enum",
    technique="bounded-exhaustive enumeration of token strings / strings x quoting forms / literal spellings on the real scanner, parser and literal package (explicit-state, no sampling)",
    text="Every token string up to the length bound, every string over a hostile rune alphabet under every quoting form and every literal-candidate spelling up to the bound is executed on the real code and checked against position invariants, Unquote(Quote(s))==s and three-way validity agreement. Exhaustive within the stated alphabet/bound; says nothing beyond it.",
